@@ -248,6 +248,15 @@ def _hl1_short_region(case):
     return int(case.get("cfg.hierarchical_levels", 4)) == 1 and ((n == 2 and m <= 5) or (n == 4 and m <= 4))
 
 
+def _rc_ip1_region(case):
+    """sixth deadlock family: 1-pass VBR/CVBR (rate_control_mode 1/2, no stats file, look-ahead on) with
+    intra_period_length=1: one packet is delivered, then nothing, for every size / hierarchy / lp / stream length >= 2
+    (intra period 0, 2, 3, 5, 7 finish; 2-pass or look_ahead_distance=0 finish)"""
+    return (int(case.get("cfg.rate_control_mode", 0)) in (1, 2) and int(case.get("cfg.intra_period_length", -2)) == 1
+            and int(case.get("passes", 1)) == 1 and int(case.get("cfg.look_ahead_distance", -1)) != 0
+            and int(case.get("frames", 0)) >= 2)
+
+
 def _ipmg_region(case):
     """second deadlock family: <= 2 logical processors and an intra period that is a whole number of mini-GOPs
     (the configuration the API header recommends); send_picture blocks for ever on the input pool after ~16 pictures,
@@ -268,7 +277,7 @@ def known_hang_region(case):
     still run them (short watchdog); the others skip them because they cannot be judged there."""
     try:
         n = int(case.get("frames", 0))
-        return (_hl5_region(case) and n >= 32) or _hl5_long_region(case) or _ovl4_region(case) or _hl1_short_region(case) or (_ipmg_region(case) and n >= 10) or (_sbcol_region(case) and n >= 1)
+        return (_hl5_region(case) and n >= 32) or _hl5_long_region(case) or _ovl4_region(case) or _hl1_short_region(case) or _rc_ip1_region(case) or (_ipmg_region(case) and n >= 10) or (_sbcol_region(case) and n >= 1)
     except ValueError:
         return False
 
@@ -281,6 +290,8 @@ def hang_sig(case):
             return "hl5+lp<=15+frames>=67"
         if _ovl4_region(case):
             return "hl4+overlays+frames>=25"
+        if _rc_ip1_region(case):
+            return "rc12+intra-period-1"
         if _hl1_short_region(case):
             return "hl1+preset<=5+frames2or4"
         if _ipmg_region(case):
